@@ -89,6 +89,7 @@ pub const NUM_TOKENS: &[&str] = &[
     "#x10000000000000000", "#b11111111111111111111111111111111111111111111111111111111111111111", "123456789012345678901234567890",
     "1.7976931348623157e308", "1e400", "1e-400", "0.1", "0.30000000000000004", "100000000000000000000.5", "1.e3", "1.5e", "1e+", "1e-",
     "3.", "3.e", "0.000001", "0.0000001234", "100000000000000000000000.0", "0.1e-5", "-0.000001", "12345678.9e-20", "12345678901234567890.12345678901234567890e10", "1e2147483648", "1e-2147483649", "0e99999999999", "2e308", "9007199254740993",
+    "1e-99999999990", "0e99999999900", "1e+99999999990", "-1e-10000000000", "0.0e-30000000000",
 ];
 pub const NEAR_MISS: &[&str] = &[
     "1+", "1-", "1/2", "1.5.6", "0x10", "12ab", "1e3x", ":a", "a:", ":a:", "::", ":", "nil", "nil:", "nilx", "t", "tt", "#nil", "#n", "#t", "#f",
@@ -102,7 +103,7 @@ pub const STR_TOKENS: &[&str] = &[
     "\"\"", "\"abc\"", "\"a\\nb\"", "\"\\a\\b\\t\\n\\v\\f\\r\\\"\\\\\"", "\"\\x41;bc\"", "\"\\x41bc;\"", "\"\\x41\"", "\"\\x;\"", "\"\\x110000;\"",
     "\"\\xD800;\"", "\"\\q\"", "\"\\|\"", "\"λ\"", "\"a\nb\"", "\"\\u00e9\"", "\"\\U0001F600\"", "\"\\N{U+41}\"", "\"\\101\"", "\"\\x41\"", "\"\\x41\\ 1\"",
     "\"\\001\\002\"", "\"\\377\"", "\"\\400\"", "\"\\xff\"", "\"\\x100\"", "\"\\^a\"", "\"\\^1\"", "\"\\e\\s\\d\"", "\"\\ \"", "\"\\é\"", "\"\\001é\"", "\"\\u12\"",
-    "\"unterminated", "\"esc at end\\", "\"\\x41", "\"\\N{U+41\"", "\"\\N{X}\"", "\"\\u00zz\"", "\"\\7777777777\"", "\"\\xFFFFFFFFF\"",
+    "\"\u{7f}\"", "\"\\377\u{7f}\"", "\"\u{7f}\\x41\"", "\"unterminated", "\"esc at end\\", "\"\\x41", "\"\\N{U+41\"", "\"\\N{X}\"", "\"\\u00zz\"", "\"\\7777777777\"", "\"\\xFFFFFFFFF\"",
 ];
 const SYM_TOKENS: &[&str] = &[
     "a", "foo", "foo-bar", "list->vector", "set!", "&rest", "<=", "x1", "A", "Z9", "λ", "éa", "a→b", "*", "/", "%x", "_", "~", "^", "=", "<", ">", "!", "$", "&",
@@ -138,7 +139,8 @@ pub fn synth_token(r: &mut Rng) -> String {
             if r.chance(1, 3) {
                 s.push(*r.pick(&['e', 'E']));
                 s.push_str(*r.pick(&["", "", "-", "+"]));
-                s.push_str(&chars_from(r, "0123456789", 0, 4));
+                let n = *r.pick(&[0u64, 1, 2, 4, 4, 12]);
+                s.push_str(&chars_from(r, "0123456789", 0, n));
             }
         }
         1 => s.push_str(&chars_from(r, "abcxyzABC!$%&*/:<=>?@^_~+-.0123456789#|'\u{3bb}\u{e9}\u{2192}", 1, 6)),
@@ -171,7 +173,7 @@ pub fn synth_token(r: &mut Rng) -> String {
                     }
                     2 => s.push_str(&chars_from(r, "\u{3bb}\u{e9}\u{1f600}", 1, 1)),
                     3 => s.push_str(*r.pick(&["\n", "\\\n  ", "\\ \n", "\t", "\r"])),
-                    _ => s.push_str(&chars_from(r, "ab ()#;'", 1, 2)),
+                    _ => s.push_str(&chars_from(r, "ab ()#;'\u{7f}", 1, 2)),
                 }
             }
             if r.chance(19, 20) {
